@@ -590,6 +590,15 @@ impl<'p> From<&'p Program> for ControlFlowGraph<'p> {
                     graph.blocks.push(block);
                 }
             }
+
+            #[cfg(rigetti_quil_rs_verif)]
+            crate::verif::emit(crate::verif::VerifEvent::CfgStep {
+                instruction,
+                offset: instruction_index_offset,
+                blocks: graph.blocks.len(),
+                open_label: current_label,
+                open_instructions: current_block_instructions.len(),
+            });
         }
 
         if !current_block_instructions.is_empty() || current_label.is_some() {
